@@ -205,6 +205,88 @@ func collectAcquires(repo string) ([]acquireSite, error) {
 	return out, nil
 }
 
+// bodyCallSite: a function of core/environment that calls the task-level body of a transition,
+// `<transition>.do(<env>)`. sync = it WAITS for it, for as long as it takes: the call is a plain call in the
+// function's own flow (directly in the function, or in the function literal it returns — handlerFunc returns
+// the leave_<state> helper) — not in a go or defer statement, not in any other function literal —, the function
+// holds no go statement, no select statement and no timer / deadline (time.After, time.NewTimer, time.AfterFunc,
+// time.Tick, time.NewTicker, context.WithTimeout, context.WithDeadline), and `do` is mentioned nowhere in
+// the function except in such calls (no method value handed to somebody else).
+type bodyCallSite struct {
+	fn   string
+	sync bool
+}
+
+func collectBodyCalls(repo string) ([]bodyCallSite, error) {
+	fset := token.NewFileSet()
+	files, _ := filepath.Glob(filepath.Join(repo, "core/environment/*.go"))
+	sort.Strings(files)
+	var out []bodyCallSite
+	for _, fn := range files {
+		if strings.HasSuffix(fn, "_test.go") || strings.Contains(filepath.Base(fn), "verif_hook") {
+			continue
+		}
+		f, perr := parser.ParseFile(fset, fn, nil, 0)
+		if perr != nil {
+			return nil, perr
+		}
+		for _, d := range f.Decls {
+			fd, ok := d.(*ast.FuncDecl)
+			if !ok || fd.Body == nil {
+				continue
+			}
+			mentions, calls, plain := 0, 0, 0
+			concurrency := false
+			var stack []ast.Node
+			ast.Inspect(fd.Body, func(n ast.Node) bool {
+				if n == nil {
+					stack = stack[:len(stack)-1]
+					return true
+				}
+				switch x := n.(type) {
+				case *ast.GoStmt, *ast.SelectStmt:
+					concurrency = true
+				case *ast.SelectorExpr:
+					if x.Sel.Name == "do" {
+						mentions++
+					}
+				case *ast.CallExpr:
+					switch exprString(fset, x.Fun) {
+					case "time.After", "time.NewTimer", "time.AfterFunc", "time.Tick", "time.NewTicker", "context.WithTimeout", "context.WithDeadline":
+						concurrency = true
+					}
+					if se, ok := x.Fun.(*ast.SelectorExpr); ok && se.Sel.Name == "do" && len(x.Args) == 1 {
+						calls++
+						ok := true
+						for i, a := range stack {
+							switch a.(type) {
+							case *ast.GoStmt, *ast.DeferStmt:
+								ok = false
+							case *ast.FuncLit:
+								// only the function literal the function returns
+								if i == 0 {
+									ok = false
+								} else if _, ret := stack[i-1].(*ast.ReturnStmt); !ret {
+									ok = false
+								}
+							}
+						}
+						if ok {
+							plain++
+						}
+					}
+				}
+				stack = append(stack, n)
+				return true
+			})
+			if calls > 0 {
+				out = append(out, bodyCallSite{fn: fd.Name.Name, sync: !concurrency && plain == calls && mentions == calls})
+			}
+		}
+	}
+	return out, nil
+}
+
 func genLocks(repo string) (string, error) {
 	events, writes, err := collect(repo)
 	if err != nil {
@@ -235,6 +317,17 @@ func genLocks(repo string) (string, error) {
 			b.WriteString(", ")
 		}
 		fmt.Fprintf(&b, "(%q, %v)", s.fn, s.waits)
+	}
+	bodyCalls, err := collectBodyCalls(repo)
+	if err != nil {
+		return "", err
+	}
+	b.WriteString("]\n\n/-- every function of core/environment/ that calls the task-level body of a transition, `<transition>.do(<env>)` (go/ast):\n    (function, it WAITS for it for as long as it takes — a plain call in the function's own flow or in the function literal it\n    returns, no go / defer / select statement, no timer or deadline in the function, `do` mentioned nowhere else in it) -/\ndef bodyCallSites : List (String × Bool) := [")
+	for i, s := range bodyCalls {
+		if i > 0 {
+			b.WriteString(", ")
+		}
+		fmt.Fprintf(&b, "(%q, %v)", s.fn, s.sync)
 	}
 	b.WriteString("]\n\nend Gen\n")
 	return b.String(), nil
